@@ -1,0 +1,88 @@
+//go:build verif
+
+// Contracts for package bloom, checked by /verif (govc). Ghost functions and comments only.
+// C17: "the bloom filter never denies a present key".
+package bloom
+
+import "reduction.dev/reduction/util/murmur"
+
+var _ = murmur.Hash
+
+func forall(lo, hi int, f func(int) bool) bool {
+	for i := lo; i < hi; i++ {
+		if !f(i) {
+			return false
+		}
+	}
+	return true
+}
+
+// ghostBit: bit pos of the filter's bit array.
+func ghostBit(bf *Filter, pos uint32) bool {
+	return (bf.bitArray[pos/64] & (1 << (pos % 64))) != 0
+}
+
+// ghostHas: every probe position of data is set - exactly what MightHave tests.
+func ghostHas(bf *Filter, data []byte) bool {
+	return forall(0, bf.hashCount, func(i int) bool { return ghostBit(bf, murmur.Hash(data, i)%bf.size) })
+}
+
+// The one fact about machine words the filter needs, proved by the solver over 64-bit vectors
+// and then used for the (otherwise uninterpreted) integer bit operations: setting bit p of a
+// word sets bit p and leaves every other bit as it was.
+//@ lemma wordSetBit
+//@   property C17
+//@   mode bv bridge
+//@   forall w uint64, p uint32, q uint32
+//@   requires p < 64 && q < 64
+//@   ensures (((w | (uint64(1) << p)) & (uint64(1) << q)) != 0) == (p == q || (w & (uint64(1) << q)) != 0)
+
+// ... and the zero word has no bit set.
+//@ lemma wordZeroBit
+//@   property C17
+//@   mode bv bridge
+//@   forall q uint32
+//@   requires q < 64
+//@   ensures (uint64(0) & (uint64(1) << q)) == 0
+
+//@ define bfShape(bf) := bf.size >= 1 && bf.hashCount >= 0 && len(bf.bitArray) == (int(bf.size)+63)/64
+
+//@ func NewFilter
+//@   property C17
+//@   requires size >= 1 && size <= 4294967232
+//@   ensures result != nil && result.size == size && result.hashCount == hashes && len(result.bitArray) == (int(size)+63)/64
+//@   ensures forall(func(q uint32) bool { return q < size ==> !ghostBit(result, q) })
+
+//@ func Filter.setBit
+//@   property C17
+//@   requires int(pos)/64 < len(bf.bitArray)
+//@   modifies bf.bitArray
+//@   ensures len(bf.bitArray) == old(len(bf.bitArray)) && ghostBit(bf, pos)
+//@   ensures forall(func(q uint32) bool { return int(q)/64 < len(bf.bitArray) ==> ghostBit(bf, q) == (q == pos || old(ghostBit(bf, q))) })
+
+//@ func Filter.getBit
+//@   property C17
+//@   requires int(pos)/64 < len(bf.bitArray)
+//@   modifies nothing
+//@   ensures result == ghostBit(bf, pos)
+
+// Add sets every probe position of data and clears nothing: whatever the filter held, it still holds.
+//@ func Filter.Add
+//@   property C17
+//@   requires bfShape(bf)
+//@   modifies bf.bitArray
+//@   ensures bfShape(bf) && ghostHas(bf, data)
+//@   ensures forall(func(q uint32) bool { return q < bf.size && old(ghostBit(bf, q)) ==> ghostBit(bf, q) })
+//@   loop 0:
+//@     invariant bfShape(bf) && 0 <= i && i <= bf.hashCount
+//@     invariant forall(0, i, func(j int) bool { return ghostBit(bf, murmur.Hash(data, j)%bf.size) })
+//@     invariant forall(func(q uint32) bool { return q < bf.size && old(ghostBit(bf, q)) ==> ghostBit(bf, q) })
+
+// MightHave answers exactly "every probe position is set": it never denies a key that was added.
+//@ func Filter.MightHave
+//@   property C17
+//@   requires bfShape(bf)
+//@   modifies nothing
+//@   ensures result == ghostHas(bf, data)
+//@   loop 0:
+//@     invariant 0 <= i && i <= bf.hashCount && forall(0, i, func(j int) bool { return ghostBit(bf, murmur.Hash(data, j)%bf.size) })
